@@ -1227,7 +1227,9 @@ func runC04(c0 *Ctx) {
 	c.Rule = "sessions = REPL histories over one persistent eval.State, generated as abstract programs of coq/model/Memo.v and printed as grol: " +
 		"corpus (known findings, repaired defects, mechanism cases) then random sessions (functions/lambdas defined and redefined, called with equal and " +
 		"different arguments incl. +-0/NaN/strings/arrays/>4 args, closures over lower-case/upper-case/function-valued variables, outer reads and writes, " +
-		"print, log, error, rand/time.now, del, recursion); each run cache on and cache off on the implementation (direct oracle) and on the extracted model. " +
+		"print, log, error, rand/time.now, del, recursion; state machines that read/call and then rewrite one outer binding - lambda flip-flops, " +
+		"counters, growing containers - called 3-5 times with equal arguments directly and through 1-2 levels of callers, with a model-free store " +
+		"oracle: no call of such a writer or of its callers may appear in the cache); each run cache on and cache off on the implementation (direct oracle) and on the extracted model. " +
 		"non-trivial = distinct session that ends with a non-empty cache"
 	// every identifier the generator uses must be free in a fresh state (not an extension, not a predefined function)
 	for _, name := range []string{"f", "g", "h", "id", "mk", "a", "b", "c", "d", "w", "k", "x", "y", "t", "n", "m", "p", "q", "r", "s", "X", "N", "F", "fib", "f2", "k4", "v", "nx", "tw", "tt", "m"} {
